@@ -477,6 +477,11 @@ func evalImportStmt(vm *r.VM, node *syntax.ImportStmt) error {
 			}
 			// After executing the module, find it again to get the module object
 			extModule = newModule
+		} else {
+			// the module exists already (maybe it is still being loaded): the dependency
+			// graph only got an edge when a module was first allocated, so the edge that
+			// closes an import cycle was never recorded
+			vm.AddModuleDependency(extLibName)
 		}
 		// check circular dependency
 		if err2 := vm.CheckDepedency(extLibName); err2 != nil {
